@@ -23,6 +23,7 @@ func checkC15(c *Ctx) {
 	c15Unmarked(c)
 	c15Determinism(c)
 	c15RecoverReported(c)
+	c15Known(c)
 	c.NotCovered("index-out-of-range / nil dereference / failed type assertion on arbitrary damaged input (value reasoning)")
 	c.NotCovered("in-bounds source ranges of diagnostics")
 	c.NotCovered("progress of byte-level scanners (Ragel machines, json scanner): arithmetic facts")
@@ -627,3 +628,34 @@ func c15RecoverReported(c *Ctx) {
 	}
 	c.Floor("recover.reported sites", n, 40, "51 recovery call sites in the native parser")
 }
+
+// R7: no unknown/null-value panic (E-known).
+func c15Known(c *Ctx) {
+	c.Rule("R7 known: the receiver of every call of a cty.Value method that panics on unknown or null receivers (AsString, AsBigFloat, True, False, LengthInt, ElementIterator, ForEachElement, AsValueSlice/Map/Set, HasElement) in hcl, hclsyntax, json, hcldec, ext/dynblock is provably known / non-null there: under a dominating IsKnown()/IsWhollyKnown()/!IsNull() test of the same value (through Unmark/WithMarks/single-store locals), a fresh known constructor or cty constant, a conversion of such a value, an iterator key, a local/phi of such, the result of a helper all of whose error-free returns are such, or a parameter of an unexported function all of whose call sites pass such")
+	e, err := newKnownEngine(c.P)
+	if err != nil {
+		c.CheckerFail("known", err.Error())
+		return
+	}
+	c.Trust("go-cty v1.16.3: the explicit unknown/null panics of the accessor methods are re-derived from its SSA on every run and equal the frozen table; True/False panic implicitly on unknown receivers")
+	fns := c.P.pkgFuncs("hcl", "hclsyntax", "json", "hcldec", "ext/dynblock")
+	sites := e.Sites(fns)
+	n := 0
+	for _, s := range sites {
+		name := FuncName(s.fn)
+		c.Fn(name)
+		c.Sites++
+		n++
+		key := fmt.Sprintf("%s:call[%s]", name, s.method)
+		if exc, ok := knownExceptions[key]; ok && !s.ok {
+			c.OK("known", key, s.pos, "named exception: "+exc)
+			continue
+		}
+		c.Check(s.ok, "known", key, s.pos, s.why,
+			fmt.Sprintf("%s() on a value that is %s: panics when the value is unknown or null", s.method, s.why))
+	}
+	c.Floor("known sites", n, 40, "accessor calls in the evaluators, decoders and Index/GetAttr")
+}
+
+// Named exceptions: one call site each, with the reason the receiver cannot be unknown/null.
+var knownExceptions = map[string]string{}
